@@ -25,41 +25,130 @@ func resourceMilli(v int64) *resource.Quantity {
 	return resource.NewMilliQuantity(v, resource.DecimalSI)
 }
 
-// kfKey recognises the input shapes of known findings (known-findings.txt), so that one defect is reported once.
-func kfKeyExisting(e sk.ExistingDump) string {
-	labels := map[string]bool{}
-	for _, kv := range e.Labels {
-		labels[kv[0]] = true
+// ---- known-finding shapes (known-findings.txt): one defect is reported once, anything else still fails ----
+const (
+	// F11: the conjunction of a pod's own constraints on one key is empty; the algebra stores the empty set as
+	// DoesNotExist, which "is satisfied when undefined", so the pod is accepted on a node / pool that does not define the key
+	kfCollapse = "contradictory-constraints-collapse-to-doesnotexist"
+	// F12: ExistingNode keeps pod requirements for label keys the node does not carry; after a pod with `k NotIn [..]`
+	// a later pod demanding `k In [..]` / `k Exists` is accepted although the node has no label k
+	kfUndefinedLabel = "existing-node-undefined-label-after-notin"
+	// F13: ExistingNode.CanAdd checks host ports against bound pods only, not against daemonset pods still to arrive
+	kfDaemonPort = "existing-node-daemon-hostport-not-reserved"
+)
+
+func positive(op string) bool { return op != "NotIn" && op != "DoesNotExist" }
+
+// constraintsOn lists the operators a pod puts on key k anywhere in its spec (selector, required, preferred).
+func constraintsOn(p sk.PodDump, k string) (n int, pos bool) {
+	for _, kv := range p.Sel {
+		if kv[0] == k {
+			n++
+			pos = true
+		}
 	}
-	// a placed pod demands a label the node does not carry, while another placed pod excludes values of that key
-	excluded := map[string]bool{}
-	for _, p := range e.Placed {
-		for _, t := range p.Req {
-			for _, x := range t {
-				if !labels[x.Key] && (x.Op == "NotIn") {
-					excluded[x.Key] = true
-				}
+	for _, t := range p.Req {
+		for _, x := range t {
+			if x.Key == k {
+				n++
+				pos = pos || positive(x.Op)
 			}
 		}
 	}
-	for _, p := range e.Placed {
-		for _, kv := range p.Sel {
-			if !labels[kv[0]] && excluded[kv[0]] {
-				return kfUndefinedLabel
+	for _, w := range p.Pref {
+		for _, x := range w.Term {
+			if x.Key == k {
+				n++
 			}
 		}
-		for _, t := range p.Req {
-			for _, x := range t {
-				if !labels[x.Key] && excluded[x.Key] && (x.Op == "In" || x.Op == "Exists" || x.Op == "Gt" || x.Op == "Lt" || x.Op == "Gte" || x.Op == "Lte") {
-					return kfUndefinedLabel
-				}
+	}
+	return
+}
+
+func podKeys(p sk.PodDump) []string {
+	seen := map[string]bool{}
+	var out []string
+	add := func(k string) {
+		if !seen[k] {
+			seen[k] = true
+			out = append(out, k)
+		}
+	}
+	for _, kv := range p.Sel {
+		add(kv[0])
+	}
+	for _, t := range p.Req {
+		for _, x := range t {
+			add(x.Key)
+		}
+	}
+	return out
+}
+
+func clash(a, b sk.HostPort) bool {
+	return a.Proto == b.Proto && a.Port == b.Port && (a.IP == b.IP || a.IP == "0.0.0.0" || b.IP == "0.0.0.0")
+}
+
+func kfKeyClaim(cd sk.ClaimDump) string {
+	empty := map[string]bool{}
+	for _, r := range cd.Reqs {
+		if !r.Compl && len(r.Vals) == 0 {
+			empty[r.Key] = true
+		}
+	}
+	for _, p := range cd.Pods {
+		for _, k := range podKeys(p) {
+			if n, pos := constraintsOn(p, k); empty[k] && n >= 2 && pos {
+				return kfCollapse
 			}
 		}
 	}
 	return ""
 }
 
-const kfUndefinedLabel = "existing-node-undefined-label-after-notin"
+func kfKeyExisting(e sk.ExistingDump) string {
+	labels := map[string]bool{}
+	for _, kv := range e.Labels {
+		labels[kv[0]] = true
+	}
+	for _, p := range e.Placed {
+		for _, k := range podKeys(p) {
+			if n, pos := constraintsOn(p, k); !labels[k] && n >= 2 && pos {
+				return kfCollapse
+			}
+		}
+	}
+	// a placed pod demands a label the node does not carry, while another placed pod excludes values of that key
+	excluded := map[string]bool{}
+	for _, p := range e.Placed {
+		for _, t := range p.Req {
+			for _, x := range t {
+				if !labels[x.Key] && x.Op == "NotIn" {
+					excluded[x.Key] = true
+				}
+			}
+		}
+	}
+	for _, p := range e.Placed {
+		for _, k := range podKeys(p) {
+			if _, pos := constraintsOn(p, k); !labels[k] && excluded[k] && pos {
+				return kfUndefinedLabel
+			}
+		}
+	}
+	for _, p := range e.Placed {
+		for _, d := range e.Daemons {
+			for _, a := range p.Ports {
+				for _, b := range d.Ports {
+					if clash(a, b) {
+						return kfDaemonPort
+					}
+				}
+			}
+		}
+	}
+	return ""
+}
 
 func runWorld(c *kit.Ctx, r *kit.Rand, idx int) {
 	// every third world carries no pod (anti-)affinity / topology spread: Solve is then deterministic up to map order
@@ -68,6 +157,11 @@ func runWorld(c *kit.Ctx, r *kit.Rand, idx int) {
 	w := sk.Gen(r, sk.GenOpts{Thorough: c.Thorough(), NoTopology: noTopo})
 	sk.BindDaemonPods(r, w)
 	cfg := sk.RunCfg{Workers: 1, IgnorePreferences: idx%2 == 1, BestEffortMinValues: (idx/2)%2 == 1}
+	judgeWorld(c, w, cfg, idx, noTopo)
+}
+
+// judgeWorld runs the real scheduler on the world and emits one oracle case per node that received pods.
+func judgeWorld(c *kit.Ctx, w *sk.World, cfg sk.RunCfg, idx int, noTopo bool) {
 	out, err := sk.Run(w, cfg)
 	if err != nil {
 		c.Fail(c.NextID(), "harness could not run the scheduler: "+err.Error(), "", nil)
@@ -83,6 +177,10 @@ func runWorld(c *kit.Ctx, r *kit.Rand, idx int) {
 		term := fmt.Sprintf("(BNew %s %s %s %s %s %s)", gWK(d.WellKnown), gReqs(cd.Reqs), kit.GListOf(cd.Taints, gTaint), kit.GListOf(cd.Options, gOpt),
 			kit.GListOf(cd.Pods, gPod), kit.GListOf(d.Daemons, gPod))
 		in := map[string]interface{}{"kind": "Solve/new-nodeclaim", "config": cfg, "claim": cd, "daemons": d.Daemons}
+		if k := kfKeyClaim(cd); k != "" {
+			in["kf_key"] = k
+			c.Count("B.kf-shape." + k)
+		}
 		raw, _ := json.Marshal(cd)
 		c.AddCase(term, in, "bnew|"+string(raw))
 	}
@@ -95,6 +193,7 @@ func runWorld(c *kit.Ctx, r *kit.Rand, idx int) {
 		in := map[string]interface{}{"kind": "Solve/existing-node", "config": cfg, "node": ed}
 		if k := kfKeyExisting(ed); k != "" {
 			in["kf_key"] = k
+			c.Count("B.kf-shape." + k)
 		}
 		raw, _ := json.Marshal(ed)
 		c.AddCase(term, in, "bex|"+string(raw))
@@ -172,6 +271,7 @@ func main() {
 		caseEX(c, r.Fork())
 	}
 	tS := time.Since(t0)
+	witnesses(c)
 	for i := 0; i < nWorlds; i++ {
 		runWorld(c, r.Fork(), i)
 	}
